@@ -15,9 +15,13 @@ import (
 	"verifharness/xstate"
 )
 
+// models: explicit-state models served by `harness xworker`; commands: property checks and
+// auxiliary worker sub-commands. Both are filled by init() functions in reg_*.go files.
 var models = map[string]xstate.Factory{
 	"syncw": syncw.New,
 }
+
+var commands = map[string]func(args []string){}
 
 func main() {
 	if len(os.Args) < 2 {
@@ -65,6 +69,10 @@ func main() {
 	case "C01", "C02", "C03A", "C05A":
 		runSync(os.Args[1], os.Args[2:])
 	default:
+		if c := commands[os.Args[1]]; c != nil {
+			c(os.Args[2:])
+			return
+		}
 		fmt.Fprintln(os.Stderr, "unknown command", os.Args[1])
 		os.Exit(2)
 	}
